@@ -185,6 +185,12 @@ def build_reference(files: Dict[str, ast.Module]) -> dict:
                         visit(blk, prefix)
 
         visit(tree.body, "")
-        if d:
-            out[rel] = d
+        consts = []
+        for st in tree.body:
+            if isinstance(st, ast.Assign):
+                consts += [t.id for t in st.targets if isinstance(t, ast.Name)]
+            elif isinstance(st, ast.AnnAssign) and isinstance(st.target, ast.Name):
+                consts.append(st.target.id)
+        d["__consts__"] = sorted(set(consts))
+        out[rel] = d
     return out
